@@ -607,6 +607,34 @@ func (ex *Exec) builtin(fr *Frame, instr ssa.CallInstruction, bi *ssa.Builtin, c
 			}
 			return ex.havocKeys(st, keys, "clear"), Term{}, false
 		}
+		if sl, ok := c.Args[0].Type().Underlying().(*types.Slice); ok {
+			// clear(s): every scalar leaf of every element of s becomes its zero value, nothing else changes
+			d := args[0]
+			scalar := true
+			for _, lf := range ex.leaves(sl.Elem()) {
+				if lf.so != SInt && lf.so != SBool {
+					scalar = false
+				}
+			}
+			if scalar {
+				for _, lf := range ex.leaves(sl.Elem()) {
+					so := arraySort(SRef, lf.so)
+					h := ex.get(st, lf.key, so)
+					nh := ex.vc.fresh("H_"+shortKey(lf.key), so)
+					zero := "0"
+					if lf.so == SBool {
+						zero = "false"
+					}
+					dst := lf.addr(fmt.Sprintf("(at %s i)", d.S))
+					ex.vc.assume(pc, T(fmt.Sprintf("(forall ((i Int)) (! (=> (and (<= 0 i) (< i %s)) (= (select %s %s) %s)) :pattern ((select %s %s))))",
+						sLen(d).S, nh.S, dst, zero, nh.S, dst), SBool), "clear: cleared elements")
+					name := ex.inSliceCells(lf, d, sLen(d))
+					ex.vc.assume(pc, T(fmt.Sprintf("(forall ((r Ref)) (! (=> (not (%s r)) (= (select %s r) (select %s r))) :pattern ((select %s r))))", name, nh.S, h.S, nh.S), SBool), "clear: frame")
+					st = st.with(lf.key, nh)
+				}
+				return st, Term{}, false
+			}
+		}
 	}
 	ex.unsupported("builtin " + bi.Name())
 	keys := map[string]bool{}
